@@ -9,6 +9,7 @@
 #include "ucioption.h"
 
 #include <map>
+#include <thread>
 #include <memory>
 #include <sstream>
 
@@ -53,7 +54,11 @@ class Uci
 
     bool staticeval_command(std::istringstream& istream);
 
+    // stops the running search (if any) and waits for its thread to end
+    void finish_search();
+
     std::shared_ptr<Search> search;
+    std::thread search_thread;
     Position position;
     PositionScorer scorer;
     tt::TTable ttable;
